@@ -386,6 +386,16 @@ class Check:
         return 1 if self.violations else 0
 
 
+def run_parallel(thunks, width=4):
+    """run independent TLC invocations (callables) side by side; results in order, first exception re-raised"""
+    from concurrent.futures import ThreadPoolExecutor
+    if os.environ.get('VERIF_PROCS') == '1' or len(thunks) <= 1:
+        return [t() for t in thunks]
+    with ThreadPoolExecutor(max_workers=width) as ex:
+        futs = [ex.submit(t) for t in thunks]
+        return [f.result() for f in futs]
+
+
 def pool_map(fn, items, procs=None, chunksize=None):
     """map in fresh worker processes (spawned by fork before frappy state is touched)"""
     import multiprocessing as mp
